@@ -11,3 +11,5 @@ import NdnProofs.Props.C20
 #print axioms Ndn.C20.unknown_scheme_uri_error
 #print axioms Ndn.C20.platform_table_sane
 #print axioms Ndn.C20.precedence_on_platform
+#print axioms Ndn.C20.conf_value_is_first_assignment
+#print axioms Ndn.C20.conf_errors
